@@ -5,7 +5,8 @@ from types import SimpleNamespace
 
 import numpy as np
 
-from common import F, qtok, ztok, Toks
+from common import F, qtok, ztok, zlist, Toks
+import seqmodel as sm
 import gradops_lib as gl
 
 ID = 'C18'
@@ -870,6 +871,17 @@ def gen_modaxis_cases(rng, n):
             g = gen_trap(rng, sysd) if k < 0.5 else gen_ext(rng, sysd, zero_ends=True) if k < 0.8 else \
                 gen_arb(rng, sysd, zero_ends=True)
             pool.append(g)
+        # mirror images on the same channel: a flip then turns one library row into another existing row
+        for g in list(pool):
+            if rng.random() < 0.35:
+                h = dict(g)
+                if h['kind'] == 'trap':
+                    h['amp'] = -h['amp']
+                elif h['kind'] == 'ext':
+                    h['amps'] = [-a for a in h['amps']]
+                else:
+                    h['wf'] = [-a for a in h['wf']]
+                pool.append(h)
         share = rng.random() < 0.2
         blocks = []
         for b in range(rng.randint(1, 6)):
@@ -911,8 +923,82 @@ def block_render(b, raster):
             for ch in gl.CHN}
 
 
+def lib_close(impl, mod):
+    """gradient library of the implementation vs the model's (rows to 1e-12 relative: the model multiplies the
+    shortest-decimal value of each stored double exactly)"""
+    def rows_close(a, b):
+        return len(a) == len(b) and all(abs(float(x) - float(y)) <= 1e-12 * max(abs(float(x)), abs(float(y)), 1e-30)
+                                        or float(x) == float(y) for x, y in zip(a, b))
+    if [i for i, _ in impl['data']] != [i for i, _ in mod['data']]:
+        return 'data ids %s vs model %s' % ([i for i, _ in impl['data']], [i for i, _ in mod['data']])
+    for (i, a), (_, b) in zip(impl['data'], mod['data']):
+        if not rows_close(a, b):
+            return 'data[%d] %s vs model %s' % (i, a, [float(x) for x in b])
+    if sorted(impl['type']) != sorted(mod['type']):
+        return 'types differ'
+    if [i for _, i in impl['keymap']] != [i for _, i in mod['keymap']]:
+        return 'keymap ids (in order) %s vs model %s' % ([i for _, i in impl['keymap']], [i for _, i in mod['keymap']])
+    for (a, i), (b, _) in zip(impl['keymap'], mod['keymap']):
+        if not rows_close(a, b):
+            return 'keymap key of id %d: %s vs model %s' % (i, a, [float(x) for x in b])
+    if impl['next'] != mod['next']:
+        return 'next_free_ID %d vs model %d' % (impl['next'], mod['next'])
+    return None
+
+
+def compare_modaxis_model(ctx, jobs):
+    lines = [l for _, ml, _, _ in jobs for l in ml]
+    outs = ctx.model(lines)
+    k = 0
+    for c, ml, mafter, err in jobs:
+        for j in range(len(ml)):
+            o = outs[k]
+            k += 1
+            if j >= len(mafter):
+                break
+            t = Toks(o)
+            tag = t.next()
+            mcls = t.next() if tag == 'ERR' else None
+            last = j == len(mafter) - 1
+            ierr = err if last else None
+            icls = None if ierr is None else ('MAShared' if isinstance(ierr, RuntimeError) else
+                                              'MAEmpty' if isinstance(ierr, IndexError) else
+                                              'MAKey' if isinstance(ierr, KeyError) else 'MAAxis')
+            if mcls != icls:
+                ctx.mismatch('modaxis', c, {'call': j, 'impl': repr(ierr), 'model': o[:40]})
+                break
+            mlib = sm.p_lib(t)
+            ncache = t.int()
+            d = lib_close(mafter[j][0], mlib)
+            if d:
+                ctx.mismatch('modaxis', c, {'call': j, 'grad_library': d})
+                break
+            if mcls is None and (ncache != 0 or mafter[j][1] != 0):
+                ctx.mismatch('modaxis', c, {'call': j, 'cache_entries_model': ncache, 'cache_entries_impl': mafter[j][1]})
+                break
+            after = t.list(lambda: t.opt(lambda: sm.p_dblock(t)))
+            expect = t.list(lambda: t.opt(lambda: sm.p_dblock(t)))
+            if mcls is None and after != expect:
+                # run-time instance of Theorem C18_mod_grad_axis_decodes_scaled
+                ctx.mismatch('modaxis-decode', c, {'call': j, 'what': 'model decode after != scaled decode before'})
+                break
+        else:
+            continue
+        k += len(ml) - (j + 1)
+
+
 def run_modaxis(ctx, cases):
     import pypulseq as pp
+    import seqmodel as sm_
+    model_jobs = []
+    try:
+        _run_modaxis(ctx, cases, pp, model_jobs)
+    finally:
+        if model_jobs and ctx.model_available:
+            compare_modaxis_model(ctx, model_jobs)
+
+
+def _run_modaxis(ctx, cases, pp, model_jobs):
     for c in cases:
         system = gl.make_system(c['sys'])
         raster = c['sys']['raster']
@@ -935,14 +1021,25 @@ def run_modaxis(ctx, cases):
         shared = bool(sel & oth)
         reps = 2 if c['twice'] else 1
         err = None
+        mlines, mafter = [], []
         try:
             for _ in range(reps):
-                if c['flip']:
-                    seq.flip_grad_axis(c['axis'])
-                else:
-                    seq.mod_grad_axis(c['axis'], c['mod'])
+                if ctx.model_available:
+                    mlines.append('ma.run %s %d %d %s %s' % (sm.core_tokens(seq), col, 1 if c['flip'] else 0,
+                                                             qtok(sm.F(c['mod'])), zlist(range(1, nb + 1))))
+                try:
+                    if c['flip']:
+                        seq.flip_grad_axis(c['axis'])
+                    else:
+                        seq.mod_grad_axis(c['axis'], c['mod'])
+                finally:
+                    mafter.append((sm.lib_dump(seq.grad_library), len(seq.block_cache)))
+                    if len(seq.grad_library.keymap) < len(seq.grad_library.data):
+                        ctx.count('modaxis.key_collision_after_call')
         except Exception as e:
             err = e
+        if mlines:
+            model_jobs.append((c, mlines, mafter, err))
         m = F(c['mod']) ** reps
         ctx.evaluated(('modaxis', str(c)), nontrivial=err is None and bool(sel))
         ctx.count('modaxis.%s%s%s' % ('shared' if shared else 'plain', '.cache' if c['cache'] else '',
